@@ -151,4 +151,38 @@ theorem C15_native (env : Env) (s s' : State) (m : MigMsg) (r : Response)
     subst he
     cases e0 <;> simp [convertEntry]
 
+theorem sumBy_map_convert (f : BidEntry → Nat) (b : Book BidEntry)
+    (h : ∀ e, f (convertEntry e) = f e) :
+    Book.sumBy f (b.map (fun kv => (kv.1, convertEntry kv.2))) = Book.sumBy f b := by
+  induction b with
+  | nil => rfl
+  | cons hd tl ih =>
+    obtain ⟨k, e⟩ := hd
+    simp only [List.map_cons, Book.sumBy, h, ih]
+
+theorem bidOwesAny_convert (d : String) (e : BidEntry) : bidOwesAny d (convertEntry e) = bidOwesAny d e := by
+  cases e with
+  | v3 b => rfl
+  | v2 b =>
+    obtain ⟨_, hq, hf, _, _, _, hrem⟩ := C15_convert b
+    simp only [convertEntry, bidOwesAny, bidOwes]
+    have h1 : b.convert.remQuote = (v2Remaining b).2.1 := by
+      have := congrArg (fun x => x.2.1) hrem; simpa using this
+    have h2 : b.convert.remFee = (v2Remaining b).2.2 := by
+      have := congrArg (fun x => x.2.2) hrem; simpa using this
+    rw [hq, hf, h1, h2]
+
+/-- C01 across a migration: a migration moves no funds, and what the book owes – old-format
+    bids counted by the fold over their event log – is the same before and after, in every
+    denomination: nothing the contract holds is orphaned or double-counted by the conversion -/
+theorem C01_migrate (env : Env) (s s' : State) (m : MigMsg) (r : Response) (d : String)
+    (h : migrate env s m = .ok (s', r)) : owedAny s' d = owedAny s d ∧ r.msgs = [] := by
+  obtain ⟨_, ⟨v, _, _, hb⟩, _, _, _, _, _, ha, hr⟩ := migrate_ok h
+  refine ⟨?_, by rw [hr]⟩
+  unfold owedAny
+  rw [ha, hb]
+  split
+  · rw [sumBy_map_convert _ _ (bidOwesAny_convert d)]
+  · rfl
+
 end Ats.Proofs
